@@ -19,7 +19,7 @@ OUT=$ROOT/.work/coverage; rm -rf $OUT; mkdir -p $OUT/prof $OUT/run
 mkdir -p $ROOT/.work; ln -sfn $REPO $ROOT/.work/repo
 export CARGO_NET_OFFLINE=true CARGO_TARGET_DIR=$ROOT/harness/target-cov VERIF_REPO=$REPO
 export RUSTFLAGS="--cfg launchpad_verif -Awarnings -C instrument-coverage"
-(cd $ROOT/harness && cargo build --offline 2>&1 | tail -2)
+(cd $ROOT/harness && LLVM_PROFILE_FILE=$OUT/prof/build-%p.profraw cargo build --offline 2>&1 | tail -2)
 BIN=$CARGO_TARGET_DIR/debug/lpverif
 for p in $PROPS; do
   ( cd $ROOT/harness && LLVM_PROFILE_FILE=$OUT/prof/$p-%p.profraw $BIN $p --seed 1 --tier $TIER --out $OUT/run/$p > $OUT/run-$p.log 2>&1 || true ) &
